@@ -134,6 +134,11 @@ func checkC13(c *Check) {
 				} else {
 					c.Bad(key, p.Pos(in.Pos()), "underlying Flush is called outside responseWriter.Flush (implicit status bypassed)")
 				}
+			case "ReadFrom":
+				// io.ReaderFrom of the underlying writer: a body write (it may also send the writer's own implicit
+				// 200); held to every obligation of Write below
+				under["Write"] = append(under["Write"], ci)
+				c.Cond(isBodyWriter(fn), key, p.Pos(in.Pos()), "underlying ReadFrom only in a body-writing method of responseWriter", "underlying ReadFrom is called outside a body-writing method of responseWriter (implicit status / HEAD suppression / size bypassed)")
 			case "Header", "Hijack", "Push":
 				c.OK(key, p.Pos(in.Pos()), "pass-through method with no status/body effect", 1)
 			default:
@@ -416,7 +421,8 @@ func checkC13(c *Check) {
 		bw := bw
 		what := bw.Name()
 		_ = what
-		checkImplicit200(c, bw, under["Write"], bw.Name())
+		delegates := delegationsToWrapper(bw)
+		checkImplicit200X(c, bw, under["Write"], bw.Name(), delegates)
 		for _, u := range under["Write"] {
 			if u.Parent() != bw {
 				continue
@@ -438,7 +444,7 @@ func checkC13(c *Check) {
 					us = append(us, u)
 				}
 			}
-			in, path := Query{Fn: bw, Cut: notHead, Avoid: inSet(us)}.FromEntry(isReturn)
+			in, path := Query{Fn: bw, Cut: notHead, Avoid: inSet(append(append([]ssa.Instruction{}, us...), delegates...))}.FromEntry(isReturn)
 			if in == nil && len(us) > 0 {
 				c.OK(p.FuncKey(bw)+":always-forwards", p.FuncPos(bw), "for methods other than HEAD every path through Write reaches the underlying Write", numInstrs(bw))
 			} else {
@@ -472,6 +478,9 @@ func checkC13(c *Check) {
 			}
 			nSize++
 			fromUnder := func(v ssa.Value) bool {
+				if cv, isCv := strip(v).(*ssa.Convert); isCv {
+					v = cv.X
+				}
 				e, ok := strip(v).(*ssa.Extract)
 				if !ok || e.Index != 0 {
 					return false
@@ -567,6 +576,62 @@ func appendsOnly(sl ssa.Value, m VM) bool {
 }
 
 func checkImplicit200(c *Check, m *ssa.Function, unders []ssa.CallInstruction, what string) {
+	checkImplicit200X(c, m, unders, what, nil)
+}
+
+// delegationsToWrapper: calls in a method of the wrapper that hand the wrapper itself (possibly inside a
+// struct that hides its other methods) to io.Copy / io.CopyN / io.CopyBuffer as the destination: the bytes
+// then go through the wrapper's own Write, with all its bookkeeping.
+func delegationsToWrapper(m *ssa.Function) []ssa.Instruction {
+	var out []ssa.Instruction
+	if len(m.Params) == 0 {
+		return nil
+	}
+	recv := ssa.Value(m.Params[0])
+	holdsRecv := func(v ssa.Value) bool {
+		v = strip(v)
+		if v == recv {
+			return true
+		}
+		// struct{io.Writer}{w}: a local struct whose only stored field value is the receiver
+		if ld, isLd := v.(*ssa.UnOp); isLd && ld.Op == token.MUL {
+			v = ld.X
+		}
+		al, isAl := v.(*ssa.Alloc)
+		if !isAl {
+			return false
+		}
+		n, ok := 0, true
+		for _, r := range referrers(al) {
+			if fa, isFA := r.(*ssa.FieldAddr); isFA {
+				for _, rr := range referrers(fa) {
+					if st, isSt := rr.(*ssa.Store); isSt && st.Addr == ssa.Value(fa) {
+						n++
+						if strip(st.Val) != recv {
+							ok = false
+						}
+					}
+				}
+			}
+		}
+		return ok && n == 1
+	}
+	allInstrs(m, func(in ssa.Instruction) {
+		ci, ok := in.(ssa.CallInstruction)
+		if !ok {
+			return
+		}
+		switch callName(ci.Common()) {
+		case "io.Copy", "io.CopyN", "io.CopyBuffer":
+			if holdsRecv(ci.Common().Args[0]) {
+				out = append(out, in)
+			}
+		}
+	})
+	return out
+}
+
+func checkImplicit200X(c *Check, m *ssa.Function, unders []ssa.CallInstruction, what string, delegates []ssa.Instruction) {
 	p := c.P
 	// "a status line was sent": Written(), or Status() != 0 (Written's own definition, checked under R6)
 	cut := union(
@@ -596,7 +661,8 @@ func checkImplicit200(c *Check, m *ssa.Function, unders []ssa.CallInstruction, w
 	// the operation commits the response whatever the underlying writer can do: no return
 	// without a status line having been sent (e.g. Flush on a writer that is no http.Flusher)
 	key := p.FuncKey(m) + ":commits"
-	if in, path := (Query{Fn: m, Cut: cut, Avoid: implicit}).FromEntry(isReturn); in == nil {
+	commitOrDelegate := func(in ssa.Instruction) bool { return implicit(in) || inSet(delegates)(in) }
+	if in, path := (Query{Fn: m, Cut: cut, Avoid: commitOrDelegate}).FromEntry(isReturn); in == nil {
 		c.OK(key, p.FuncPos(m), what+" returns only after a status line was sent (Written() already, or the implicit WriteHeader(200))", numInstrs(m))
 	} else {
 		c.Bad(key, p.Pos(in.Pos()), what+" can return without having committed the status: Status() stays 0 and a later WriteHeader is still honoured although a write/flush came first", blockPath(path))
@@ -797,7 +863,7 @@ func isBodyWriter(fn *ssa.Function) bool {
 		return false
 	}
 	r := fn.Signature.Results()
-	return r.Len() == 2 && r.At(0).Type().String() == "int" && r.At(1).Type().String() == "error"
+	return r.Len() == 2 && (r.At(0).Type().String() == "int" || r.At(0).Type().String() == "int64") && r.At(1).Type().String() == "error"
 }
 
 // forwardsOf: v (the embedded writer converted to io.Writer) is used only as the destination of
